@@ -41,6 +41,10 @@ CHECKS = {
          "Exploration. Inputs: random bytes (invalid UTF-8, NUL), token soups over the complete vocabulary, and mutations (delete/duplicate/swap tokens, unbalanced brackets, stray ; ) } ], truncation at every token) of a 292-program corpus and of generated nested programs; every truncation and every stray-token insertion of the corpus is enumerated. Oracle: Parse returns within a watchdog bound; exactly one of (tree, error); errors are parser.Error of a documented type positioned inside the input; trees have no nil node, known node kinds and the child arities the walkers index unchecked (schema extracted from interpreter/rt_*.go and prettyprinter.go), and PrettyPrint / ParseWithRuntime+Validate do not panic on them; no goroutine with parser frames stays in 'chan send' after the call. Thorough adds FuzzParse (431 seeds).",
          "Parses run one at a time in an otherwise idle process (goroutine accounting). A hang verdict needs 20 watchdog ticks; a goroutine-count rise without a parked parser goroutine is only counted.",
          "DESIGN.md 4/C07, Appendix A"),
+ "C09": ("rapid-generated pool operation histories x perturbation plans over build-tagged hook points, model of submitted tasks, stuck-state rule for the liveness clause",
+         "Exploration with an owned schedule at the hook points. Histories over one pool (add bursts, resize up/down with and without wait, passive settle, WaitAll, JoinAll + restart) are generated together with a perturbation plan (yield / sleep / hold a goroutine at a named pool point until another point has been passed, always with a timeout); 30 directed cases hold a worker between its empty dequeue and its wait (pool.gettask.empty, pool.idle.wait) while a task is added or the worker count is reduced. Oracle: every task's run counter is <= 1 at all times; after WaitAll/JoinAll every task submitted before has finished; WorkerCount equals the request after a waiting resize and converges passively after a non-waiting one; 'eventually, without any further call' is decided as a safety property on a stuck state: no call is made except State()/WorkerCount(), and a violation needs three identical samples 500 ms apart, no active hold, a pending task with all workers idle, after a bound of >= 5 s where microseconds are expected; anything else is inconclusive (exit 2).",
+         "The Go scheduler is not owned: windows at hook points are reached deterministically, interleavings between two points without a hook are only sampled (e.g. a Signal issued before the Push inside AddTask was not caught in a sensitivity experiment). Default FIFO queue only; the engine's TaskQueue is driven through C02/C10.",
+         "DESIGN.md 4/C09, 2.6"),
  "C12": ("rapid-generated multi-threaded mutex programs (direct evaluation and sink threads) with Go-side occupancy probes; directed rendezvous cases; stuck-state verdicts",
          "Exploration. 2-16 threads (direct Eval with distinct thread ids, sink invocations on pool workers, cascades, mixed) run generated bodies with blocks over 1-3 names, nesting <= 3, re-entry, and every exit kind (fall through, error, return, break, continue, caught by an outer try, propagating out of the thread). Go probe functions registered in the stdlib observe entry/exit: no other thread may be inside a name at entry; read-yield-write counters must not lose updates; all threads finish; every named mutex is free (TryLock) and the owner table is clear at the end; 78 directed cases park a holder inside a block to make non-exclusion of different names and release-after-error deterministic.",
          "Schedules are sampled, not enumerated (no hook inside mutexRuntime.Eval); deadlock-type verdicts use the stuck-state rule (60 s bound AND a provably final state, otherwise inconclusive = exit 2).",
